@@ -423,6 +423,9 @@ type vOp[P any] struct {
 
 const vLongTimeout = time.Hour
 
+// once a timer flush has failed, later timer steps wait only briefly (keeps a broken tree's run short)
+var vTimerBroken bool
+
 func vRunCases[T any, P any](t *testing.T, out *vOut, rng *vRand, sg vSignal[T, P], n int) {
 	for c := 0; c < n; c++ {
 		timeoutReal, timeoutTerm := time.Duration(0), 0
@@ -494,8 +497,13 @@ func vRunOne[T any, P any](t *testing.T, out *vOut, sg vSignal[T, P], vc vCfg, s
 				if accepted[tp]-sink.count(tp) > 0 {
 					out.Stat(sg.name+".timer_fired_with_pending", 1)
 					sh.timer.Reset(time.Nanosecond) // logical time advances to the shard's deadline
-					if !vWait(func() bool { return sink.count(tp) >= accepted[tp] }, 20*time.Second) {
-						fail("timer-flush", fmt.Sprintf("timer fired with %d items pending for tuple %s; after 20 s %d are still not emitted",
+					wait := 15 * time.Second
+					if vTimerBroken {
+						wait = 300 * time.Millisecond
+					}
+					if !vWait(func() bool { return sink.count(tp) >= accepted[tp] }, wait) {
+						vTimerBroken = true
+						fail("timer-flush", fmt.Sprintf("timer fired with %d items pending for tuple %s; after the wait %d are still not emitted",
 							accepted[tp]-sink.count(tp), tp, accepted[tp]-sink.count(tp)))
 					}
 				}
@@ -621,9 +629,14 @@ func vTimeoutCases[T any, P any](t *testing.T, out *vOut, rng *vRand, sg vSignal
 			_ = consume(context.Background(), sg.build(p))
 		}
 		// generous deadline: the machine may be loaded; only "never flushed" is a failure
-		ok := vWait(func() bool { return sink.totalCount() >= total }, 30*time.Millisecond+15*time.Second)
+		wait := 15 * time.Second
+		if vTimerBroken {
+			wait = time.Second
+		}
+		ok := vWait(func() bool { return sink.totalCount() >= total }, 30*time.Millisecond+wait)
 		el := time.Since(t0)
 		if !ok {
+			vTimerBroken = true
 			out.Oracle("timeout-flush", "(CValidate (HC 30 false 1000 0 [] 0) 0)%N",
 				fmt.Sprintf("%s: %d items pending, timeout 30 ms, nothing emitted after %v (no further arrival, no shutdown)", sg.name, total-sink.totalCount(), el))
 		}
